@@ -20,6 +20,7 @@ import (
 
 	"github.com/tikv/pd/pkg/verifshim/sched"
 	"verif/engine/evidence"
+	"verif/engine/hist"
 )
 
 // Violation is returned by Instance.Check.
@@ -207,6 +208,8 @@ type Config struct {
 	// Extra runs after the exploration in the parent (e.g. sequential sub-checks); it
 	// may add to the coverage and report violations.
 	Extra func(tier string, rep *evidence.Reporter, cov *evidence.Coverage)
+	// HistScopes are engine-B searches (operation histories) run after the schedules.
+	HistScopes []*hist.Scope
 }
 
 func workerMain(cfg *Config) {
@@ -255,12 +258,20 @@ func Main(cfg *Config) {
 	budget := flag.Int("budget", 0, "time budget in seconds for the exploration (0 = tier default)")
 	nworkers := flag.Int("workers", 0, "worker processes (default: cores)")
 	only := flag.String("scenario", "", "only this scenario")
+	histWorker := flag.String("histworker", "", "internal: engine-B worker")
 	flag.Parse()
 	if *worker {
 		workerMain(cfg)
 		return
 	}
+	if *histWorker != "" {
+		hist.WorkerMain(cfg.HistScopes, *histWorker)
+		return
+	}
 	if *replay != "" {
+		if rc := hist.ReplayFile(cfg.Property, cfg.HistScopes, *replay); rc >= 0 {
+			os.Exit(rc)
+		}
 		os.Exit(replayFile(cfg, *replay))
 	}
 	if *budget == 0 {
@@ -281,6 +292,10 @@ func Main(cfg *Config) {
 		}
 	}
 	deadline := time.Now().Add(time.Duration(*budget) * time.Second)
+	if len(cfg.HistScopes) > 0 {
+		// engine B gets a third of the budget
+		deadline = time.Now().Add(time.Duration(*budget) * time.Second * 2 / 3)
+	}
 	outcomesAll := map[string]struct{}{}
 	for i, sc := range scens {
 		// split the remaining budget evenly over the remaining scenarios
@@ -320,6 +335,9 @@ func Main(cfg *Config) {
 		fmt.Printf("%s %-28s pre<=%d dev<=%d execs=%d nodes=%d outcomes=%d exhaustive=%v %.1fs\n", cfg.Property, sc.Name, sc.MaxPre, sc.MaxDev, st.Execs, st.Nodes, st.Outcomes, st.Exhaustive, st.WallS)
 	}
 	cov.DistinctNontrivial = int64(len(outcomesAll))
+	if len(cfg.HistScopes) > 0 && !rep.Failed() {
+		hist.RunScopes(cfg.Property, cfg.HistScopes, *tier, *only, *nworkers, time.Now().Add(time.Duration(*budget)*time.Second/3), rep, &cov, "-histworker")
+	}
 	if cfg.Extra != nil {
 		cfg.Extra(*tier, rep, &cov)
 	}
